@@ -1477,7 +1477,11 @@ impl C09S {
                         // register or a pointer cell (LDR, STR, LDI, STI); a user-mode RTI is refused
                         // before its stack pointer is looked at
                         let addr_formed = matches!(instr.map(|w| w >> 12), Some(6) | Some(7) | Some(10) | Some(11));
-                        let allowed = k == "StrictPCCurrUninit" || (k == "StrictMemAddrUninit" && addr_formed);
+                        // under real traps the refusal is the exception entry itself, which pushes PSR and PC
+                        // on the supervisor stack and jumps through the vector table: with an uninitialised
+                        // stack pointer, vector or handler word that entry ends in a strictness error of its own
+                        let entry_err = vectored && matches!(k, "StrictMemAddrUninit" | "StrictSRAddrUninit" | "StrictPCNextUninit" | "StrictJmpAddrUninit");
+                        let allowed = k == "StrictPCCurrUninit" || (k == "StrictMemAddrUninit" && addr_formed) || entry_err;
                         if is_strict_err(k) && !allowed {
                             return fail(steps, "strict-masks-violation", format!("user-mode step at x{pc:04X} (word {instr:04X?}) is refused by the non-strict machine ({}), the strict machine reports {k} instead", if vectored { "vectored to the exception handler".to_string() } else { format!("{rn:?}") }));
                         }
